@@ -39,6 +39,10 @@ CHECKS = {
          "Runs tens of thousands of short concurrent histories (2-4 goroutines, 3-5 shared keys, GOMAXPROCS 1/2/4/16, injected yields) and checks each for linearizability, serialised store access, exactly-once eviction reports after a final Clear and Size <= limit, plus stress rounds of 2-8 goroutines under the race detector with a concurrent observer. Held = no race report, no illegal history, no accounting discrepancy in the interleavings that were observed (their number is in the evidence).",
          "Trusts porcupine v1.3.0, the Go race detector, and the reference LRU; says nothing about schedules the Go scheduler did not produce.",
          "DESIGN.md §5 C09"),
+ "C10": ("reference-model monitors (slices; list cursors modelled by predecessor identity; rings as cyclic id sequences compared with the documented Join/Pop results) after every operation; stale-cursor probes announced to a hang watchdog; exhaustive small ring configurations",
+         "Runs stack, mlink.Queue, mlink.List (4-10 live cursors obtained through At/Last/End/Find, every edit method at every position, every cursor re-checked and every stale cursor probed with every method after each edit: must panic 'invalid cursor', not hang, not alter the list) and ring.Ring (every Join over every pair of elements of every configuration of <= 7 elements in <= 2 rings, random Join/Pop histories, bounded structural walks, At/Peek/Len/Each) against reference sequences. Held = no disagreement, no hang, on the listed executions.",
+         "Trusts the slice/cycle reference models; a hang is decided by the worker's own heartbeat ticks (30 s of its running time without a completed step), not by wall-clock.",
+         "DESIGN.md §5 C10"),
  "C07": ("reference-model monitor (slice) after every operation; exhaustive short histories + scripted wrap/regrow scenarios + PRNG histories; internal-state reach counters via hook",
          "Runs the real queue.Queue against a slice reference and compares the full observable state (Len, IsEmpty, Front, Slice, Each, every Peek offset) after every single operation, over every history of bounded length for small preallocated sizes, scripted rotate-then-grow scenarios for every capacity 1..24 and head position, and tens of thousands of PRNG histories. Held = no divergence on the executions listed in the evidence file; nothing is proved beyond them.",
          "Trusts the slice reference model and the Go runtime. The VerifState hook feeds reach counters only.",
